@@ -156,7 +156,7 @@ func (env *ExecEnv) expand(word ast.Word, mode ExpMode) (fields []*field, err er
 			var b strings.Builder
 			for i := 0; i < len(w.Expr); {
 				j := i + 1
-				for j < len(w.Expr) && !w.Expr[j-1].End().Before(w.Expr[j].Pos()) {
+				for j < len(w.Expr) && !w.Expr[j-1].End().Before(w.Expr[j].Pos()) && !lits(w.Expr[j-1], w.Expr[j]) {
 					j++
 				}
 				word, err := env.expand(w.Expr[i:j], Arith)
@@ -184,6 +184,15 @@ func (env *ExecEnv) expand(word ast.Word, mode ExpMode) (fields []*field, err er
 		}
 	}
 	return
+}
+
+// lits reports whether both a and b are literals. Two literals in a row
+// are always apart in the source, even when the positions cannot tell
+// (alias substitution).
+func lits(a, b ast.WordPart) bool {
+	_, ok1 := a.(*ast.Lit)
+	_, ok2 := b.(*ast.Lit)
+	return ok1 && ok2
 }
 
 // isAt reports whether the word consists only of $@.
